@@ -114,13 +114,42 @@ ConsD == {Con(B("add", x, y), "le", Num(1, 1)), Con(B("sub", x, p), "ge", Num(-2
           Con(U("abs", x), "ge", Num(1, 2)), Asrt(B("implies", p, q))}
 
 ---------------------------------------------------------------------------
-Doms == CASE Family = "A" -> DomsA [] Family = "B" -> DomsB [] Family = "C" -> DomsC [] Family = "D" -> DomsD
-Cons == CASE Family = "A" -> ConsA [] Family = "B" -> ConsB [] Family = "C" -> ConsC [] Family = "D" -> ConsD
+(* family E: naming and well-formedness corner cases (C08)                  *)
+NamedCon(nm, c) == [c EXCEPT !.name = nm]
+InfP == Num(1, 0)     \* +infinity (symbolic: d = 0)
+InfM == Num(-1, 0)
+ax == V("$abs_0")
+ms == V("$max_0_select_1")
+z == V("z")
+DomsE == { <<Decl("x", "real", MInf, PInf), Decl("y", "real", Fin(-1, 1), Fin(1, 1)),
+             Decl("$abs_0", "real", Fin(-1, 1), Fin(1, 1)), Decl("$max_0_select_1", "bool", Fin(0, 1), Fin(1, 1)),
+             Decl("u", "int", Fin(0, 1), Fin(3, 1)), Decl("z", "nnreal", Fin(0, 1), PInf)>> }
+ConsE == {NamedCon("a", Con(U("abs", y), "ge", Num(1, 2))),
+          NamedCon("a", Con(B("add", y, ax), "le", Num(1, 1))),
+          NamedCon("a__2", Con(y, "ge", Num(-1, 2))),
+          NamedCon("b", Con(N2("max", y, ax), "ge", Num(0, 1))),
+          NamedCon("b", Asrt(N2("or", ms, U("not", ms)))),
+          Con(U("abs", x), "ge", Num(1, 1)),
+          Con(U("abs", B("add", x, z)), "ge", Num(1, 1)),
+          Con(N2("max", x, y), "le", Num(1, 1)),
+          Con(N2("min", x, z), "le", Num(1, 1)),
+          Con([op |-> "min", args |-> <<>>], "le", Num(1, 1)),
+          Con(x, "le", InfP),
+          Con(B("add", x, InfP), "ge", Num(0, 1)),
+          Con(B("sub", InfP, InfP), "le", y),
+          Con(B("mul", Num(0, 1), x), "le", InfP),
+          NamedCon("c", Con(B("mul", Num(0, 1), B("add", x, z)), "le", Num(1, 1))),
+          Con(N2("max", U("abs", y), InfM), "ge", Num(1, 2)),
+          Con(U("abs", N2("min", x, Num(3, 1))), "le", Num(2, 1))}
+---------------------------------------------------------------------------
+Doms == CASE Family = "A" -> DomsA [] Family = "B" -> DomsB [] Family = "C" -> DomsC [] Family = "D" -> DomsD [] Family = "E" -> DomsE
+Cons == CASE Family = "A" -> ConsA [] Family = "B" -> ConsB [] Family = "C" -> ConsC [] Family = "D" -> ConsD [] Family = "E" -> ConsE
 Pre  == CASE Family = "C" -> BoundRowsC [] OTHER -> {<<>>}
 Objs == CASE Family = "D" -> {<<s, o>> : s \in {"min", "max"}, o \in ObjD}
           [] Family = "C" -> {<<"min", U("abs", x)>>, <<"max", N2("min", x, y)>>, <<"sat", Num(0, 1)>>}
+          [] Family = "E" -> {<<"min", U("abs", ax)>>, <<"sat", Num(0, 1)>>}
           [] OTHER -> {<<"sat", Num(0, 1)>>}
-MaxCons == CASE Family = "D" -> 2 [] OTHER -> 1
+MaxCons == CASE Family = "D" -> 2 [] Family = "E" -> 3 [] OTHER -> 1
 MinCons == CASE Family = "D" -> 0 [] OTHER -> 1
 
 VARIABLES phase, dom, cons, obj, n
